@@ -365,6 +365,49 @@ func c09OwnKey(k int) (*mon.Obj, string) {
 
 // c09Judge lints o and its same-length signature variants with reg and requires identical status and details for
 // every lint; returns the number of variants compared.
+// derSeqOfLen builds a DER SEQUENCE whose complete encoding is exactly n octets (nil when n is too small).
+func derSeqOfLen(n int) []byte {
+	hdr := func(l int) []byte { // definite length octets, minimal
+		switch {
+		case l < 128:
+			return []byte{byte(l)}
+		case l < 256:
+			return []byte{0x81, byte(l)}
+		default:
+			return []byte{0x82, byte(l >> 8), byte(l)}
+		}
+	}
+	elems := []byte{0x0c, 0x0d, 't', 'o', '-', 'b', 'e', '-', 's', 'i', 'g', 'n', 'e', 'd', 0x00, // UTF8String with a NUL
+		0x16, 0x03, 'a', 0x00, 'b', // IA5String with a NUL
+		0x13, 0x03, 'x', '*', 'y', // PrintableString with a character outside the type
+		0x06, 0x03, 0x55, 0x04, 0x03, // OID commonName
+		0x01, 0x01, 0xff, // BOOLEAN
+		0x18, 0x0f, '2', '0', '2', '4', '0', '3', '0', '1', '0', '0', '0', '0', '0', '0', 'Z'}
+	for h := 2; h <= 4; h++ { // outer header size
+		body := n - h
+		if body < len(elems)+2 || len(hdr(body))+1 != h {
+			continue
+		}
+		pad := body - len(elems) // the padding OCTET STRING, header included
+		for ph := 2; ph <= 4; ph++ {
+			pl := pad - ph
+			if pl < 0 || len(hdr(pl))+1 != ph {
+				continue
+			}
+			out := append([]byte{0x30}, hdr(body)...)
+			out = append(out, elems...)
+			out = append(append(out, 0x04), hdr(pl)...)
+			for k := 0; k < pl; k++ {
+				out = append(out, byte(0x41+k%26))
+			}
+			if len(out) == n {
+				return out
+			}
+		}
+	}
+	return nil
+}
+
 func c09Judge(c *mon.Ctx, o *mon.Obj, desc string, g lint.Registry, rng *rand.Rand) int {
 	dc, err := der.ParseCert(o.DER)
 	if err != nil {
@@ -447,6 +490,13 @@ func c09Judge(c *mon.Ctx, o *mon.Obj, desc string, g lint.Registry, rng *rand.Ra
 			}
 		}
 	}()
+	// a signature value that IS a well-formed DER SEQUENCE of exactly that length, holding the kinds of element lints
+	// look for elsewhere in a certificate (strings of several types - one with a NUL octet, one with a character outside
+	// its type -, an OID, a BOOLEAN, a GeneralizedTime, padded with an OCTET STRING): whatever walks "the whole
+	// certificate" and follows BIT STRING / OCTET STRING encapsulation must stop in front of the signature
+	if v := derSeqOfLen(len(cur)); v != nil {
+		variants["der-sequence-of-strings"] = v
+	}
 	for vname, vb := range variants {
 		if bytes.Equal(vb, cur) {
 			continue
